@@ -54,7 +54,7 @@ ASSUMPTIONS = [
     "other thresholds 1 - 1e-9",
 ]
 PROBES = ["toffoli", "t_inverse", "set_qubit_state", "parity_meas", "parity:ancilla-path", "parity:single-qubit-path",
-          "parity:trivial", "parity:negative", "parity:both-branches-possible", "entangled-input", "flush-inside"]
+          "parity:trivial", "parity:negative", "parity_sequence", "parity:sequence-read-at-the-end", "parity:both-branches-possible", "entangled-input", "flush-inside"]
 
 PAULI = {"I": I2, "X": X, "Y": Y, "Z": Z}
 TOFFOLI = np.eye(8, dtype=complex)
@@ -122,6 +122,13 @@ def one_pass(ch: Choices, spec: Dict[str, Any], forced: List[int], sample: Dict[
             t_inverse(qs[0])
         elif call == "set_qubit_state":
             set_qubit_state(qs[0], phi=spec["phi"], theta=spec["theta"])
+        elif call == "parity_sequence":
+            handles = []
+            for b in spec["sequence"]:
+                handles.append(parity_meas(qs, b))
+                conn.flush()
+                drain("sequence")
+            result = handles
         else:
             if spec["flush_inside"]:
                 conn.flush()
@@ -146,7 +153,8 @@ def one_pass(ch: Choices, spec: Dict[str, Any], forced: List[int], sample: Dict[
             raise Violation("state", f"data-qubit-not-allocated|{spec['call']}", dict(sample))
         cur.append((0, um[q.qubit_id]))
     out = {"state": uni.statevector(cur), "prob": uni.branch_prob, "result": result, "live": len(qm.live),
-           "value": (result.value if hasattr(result, "value") else result)}
+           "value": ([(h.value if hasattr(h, "value") else h) for h in result] if isinstance(result, list)
+                     else (result.value if hasattr(result, "value") else result))}
     conn.close()
     try:
         conn.drain_now()
@@ -157,7 +165,7 @@ def one_pass(ch: Choices, spec: Dict[str, Any], forced: List[int], sample: Dict[
 
 def run(ch: Choices, opts: Dict[str, Any]) -> Dict[str, Any]:
     calm = ch.flag(1, 10, "calm")
-    call = ["toffoli", "t_inverse", "set_qubit_state", "parity_meas"][ch.weighted([2, 1, 2, 5], "call")]
+    call = ["toffoli", "t_inverse", "set_qubit_state", "parity_meas", "parity_sequence"][ch.weighted([2, 1, 2, 5, 0 if calm else 2], "call")]
     nv = False   # the property speaks about the vanilla pipeline; NV decompositions are C08's business
     faults: Dict[str, int] = {}
     probes: Dict[str, int] = {}
@@ -181,6 +189,19 @@ def run(ch: Choices, opts: Dict[str, Any]) -> Dict[str, Any]:
             if ch.flag(1, 3, "irr"):
                 spec["theta"] += ch.draw(1000, "irr") * 1e-3
                 spec["phi"] += ch.draw(1000, "irr") * 7e-4
+    elif call == "parity_sequence":
+        # several parity measurements on the same qubits, each flushed as its own subroutine; the host looks at the
+        # returned handles only at the very end
+        n = 1 + ch.draw(3, "nq")
+        spec["n"] = n
+        seq = []
+        for _ in range(2 + ch.draw(2, "nseq")):
+            b = "".join(ch.pick("IXYZ") for _ in range(n))
+            if ch.flag(1, 3, "negative"):
+                b = "-" + b
+            seq.append(b)
+        spec["sequence"] = seq
+        spec["forced_bits"] = [ch.draw(2, "branch") for _ in seq]
     else:
         n = 1 + ch.draw(3, "nq")
         spec["n"] = n
@@ -204,7 +225,47 @@ def run(ch: Choices, opts: Dict[str, Any]) -> Dict[str, Any]:
     EPS = 1e-9
     nontrivial = bool(kind)
     events = 0
-    if call != "parity_meas":
+    if call == "parity_sequence":
+        # expected values, probability and final state of the sequence of projective measurements along the forced branch
+        cur = psi.copy()
+        dim = 2 ** spec["n"]
+        forced: List[int] = []
+        want_bits: List[int] = []
+        want_p = 1.0
+        for bases, fb in zip(spec["sequence"], spec["forced_bits"]):
+            negative = bases.startswith("-")
+            letters = bases[1:] if negative else bases
+            if all(c == "I" for c in letters):
+                want_bits.append(int(negative))
+                continue
+            P = kron_all([PAULI[c] for c in letters])
+            b = fb
+            pv = ((np.eye(dim) + (1 if b == 0 else -1) * P) / 2) @ cur
+            pb = float(np.real(np.vdot(pv, pv)))
+            if pb < 1e-12:       # impossible branch: the memory follows the possible one
+                b = 1 - b
+                pv = ((np.eye(dim) + (1 if b == 0 else -1) * P) / 2) @ cur
+                pb = float(np.real(np.vdot(pv, pv)))
+            forced.append(fb)
+            want_bits.append(b ^ int(negative))
+            want_p *= pb
+            cur = pv / math.sqrt(pb)
+        sample["sequence"] = spec["sequence"]
+        r = one_pass(ch, spec, forced, sample)
+        events += len(spec["sequence"])
+        bump(probes, "parity:sequence-read-at-the-end")
+        if r["value"] != want_bits:
+            raise Violation("parity", "parity|sequence|wrong-values-when-read-at-the-end",
+                            {"returned": r["value"], "want": want_bits, "forced": forced, **sample})
+        if abs(r["prob"] - want_p) > 1e-9:
+            raise Violation("parity", "parity|sequence|wrong-probability", {"probability": r["prob"], "want": want_p, **sample})
+        if r["state"] is None or fid(r["state"], cur) < 1 - EPS:
+            raise Violation("parity", "parity|sequence|wrong-post-state",
+                            {"fidelity": None if r["state"] is None else fid(r["state"], cur), **sample})
+        if r["live"] != spec["n"]:
+            raise Violation("parity", "parity|ancilla-not-released", {"live": r["live"], **sample})
+        nontrivial = True
+    elif call != "parity_meas":
         r = one_pass(ch, spec, [], sample)
         events += 1
         got = r["state"]
